@@ -2,7 +2,13 @@
 
 delta(path) = (#BoundedStack::push on call_stack) - (#BoundedStack::pop on call_stack) - (#Vm::_run)
               + sum of the deltas of crate-local callees
-Vm::_run counts -1: it returns when the callee's Return pops the frame that was pushed for it (C08.F / C03 decide that).
+Vm::_run (the interpreter loop, located by what it does: interpreter_loop) counts -1: it returns when the callee's Return
+pops the frame that was pushed for it (C08.F / C03 decide that).
+The call stack is recognised by the field it is reached through or by its type (BoundedStack<CallFrame>: a `&mut` to it kept in
+a local or captured by a closure is still the call stack). A closure of the function that is called in place counts like a
+function; a closure handed to `Result::and_then` / `Option::and_then` counts on the paths where the result is Ok / Some (it ran
+and succeeded - the other outcomes are error results, not judged here, as for a direct call); a closure that changes the balance
+and is handed to any other function is undecided.
 Loops: a natural loop whose trip count is a literal Range a..b contributes (b-a) x (delta of one trip round the body);
 any other loop that changes the balance is undecided. Error paths (a block that assigns the return place from an Err
 aggregate or from FromResidual::from_residual) are not judged here.
@@ -17,7 +23,91 @@ class Undecided(Exception):
 
 def _is_call_stack(f, du, arg):
     l = op_local(arg)
-    return l is not None and mu.ref_of_field_chain(f, du, l, ["call_stack"])
+    if l is None:
+        return False
+    if mu.ref_of_field_chain(f, du, l, ["call_stack"]):
+        return True
+    ty = (f.local_ty(l) or "").replace(" ", "")
+    return "BoundedStack<vm::runtime::CallFrame>" in ty or "BoundedStack<runtime::CallFrame>" in ty
+
+
+INSTR = "instruction::Instruction"
+
+
+def interpreter_loop(F):
+    """short path of the function that runs instructions until the program ends (today Vm::_run), found by what it does:
+    the function of the vm module with the largest switch on an Instruction discriminant when that switch sits in a loop,
+    else the nearest caller in the vm module that calls the switching function from inside a loop."""
+    cached = getattr(F, "_interpreter_loop", None)
+    if cached is not None:
+        return cached
+    best = None
+    for cand in F.fns:
+        if not cand.mir or cand.is_closure or not cand.path.startswith("vm::"):
+            continue
+        for bi, b in enumerate(cand.blocks):
+            t = b["term"]
+            if t["k"] != "switch" or len(t["targets"]) < 20:
+                continue
+            loc = op_local(t["discr"])
+            if loc is None:
+                continue
+            for st in b["stmts"]:
+                if st["k"] == "assign" and st["place"]["l"] == loc and st["rv"]["k"] == "discr" and short(st["rv"].get("adt", "")) == INSTR:
+                    if best is None or len(t["targets"]) > best[2]:
+                        best = (cand, bi, len(t["targets"]))
+    out = "vm::Vm::_run"
+    if best is not None:
+        fn, bi, _n = best
+        seen = set()
+        work = [(fn, [bi])]
+        found = None
+        while work and found is None:
+            g, sites = work.pop(0)
+            if g.short in seen:
+                continue
+            seen.add(g.short)
+            cfg = g.cfg
+            if any(cfg.dominates(h, b_) for _a, h in cfg.back_edges() for b_ in sites):
+                found = g.short
+                break
+            for c in F.fns:
+                if c.mir and not c.is_closure and c.path.startswith("vm::") and c.short not in seen:
+                    cs = [b_ for b_, t_ in mu.calls(c) if g.short in callee_names(t_["func"])]
+                    if cs:
+                        work.append((c, cs))
+        if found is not None:
+            out = found
+    F._interpreter_loop = out
+    return out
+
+
+def _closure_operands(F, f, du, t):
+    """closures of the crate among the arguments of a call (by value or by reference): [Fn]"""
+    out = []
+    for a in t["args"]:
+        l = op_local(a)
+        if l is None or "{closure@" not in (f.local_ty(l) or ""):
+            continue
+        seen = set()
+        while l is not None and l not in seen:
+            seen.add(l)
+            d = du.sole_def(l)
+            if d is None or d[2] != "assign":
+                break
+            rv = d[3]["rv"]
+            if rv["k"] == "agg" and rv["agg"].get("k") == "closure":
+                g = F.fn(short(rv["agg"]["path"]), required=False)
+                if g is not None and g.mir:
+                    out.append(g)
+                break
+            if rv["k"] in ("use", "cast"):
+                l = op_local(rv["op"])
+            elif rv["k"] in ("ref", "rawptr") and not [e for e in rv["place"]["p"] if e["k"] != "deref"]:
+                l = rv["place"]["l"]
+            else:
+                break
+    return out
 
 
 def _error_block(f, bi):
@@ -41,11 +131,12 @@ def block_weight(F, f, du, bi, memo, stack):
         return 1, "push"
     if "collections::bounded_stack::BoundedStack::pop" in names and t["args"] and _is_call_stack(f, du, t["args"][0]):
         return -1, "pop"
-    if "vm::Vm::_run" in names:
+    if interpreter_loop(F) in names:
         return -1, "_run"
     for n in names:
         g = F.fn(n, required=False)
-        if g is not None and g.mir and not g.is_closure and g is not f:
+        # (a closure named by the call is a closure of this function called in place: `make()` / Fn::call(&make, ()))
+        if g is not None and g.mir and g is not f:
             if n in stack:
                 return 0, None          # recursion: balanced by induction
             ds = deltas(F, g, memo, stack + (n,))
@@ -53,7 +144,19 @@ def block_weight(F, f, du, bi, memo, stack):
                 raise Undecided("callee %s has frame deltas %s on its non-error paths" % (n, sorted(ds)))
             d = next(iter(ds)) if ds else 0
             return d, ("call %s" % n.rsplit("::", 1)[-1]) if d else None
-    return 0, None
+    # closures handed to a function of another crate (combinators)
+    total = 0
+    for g in _closure_operands(F, f, du, t):
+        if g.short in stack or not _touches(F, g, memo):
+            continue
+        ds = deltas(F, g, memo, stack + (g.short,))
+        if ds == {0}:
+            continue
+        if any(n in ("std::result::Result::and_then", "std::option::Option::and_then") for n in names) and len(ds) == 1:
+            total += next(iter(ds))
+        else:
+            raise Undecided("a closure that changes the frame balance by %s is handed to %s" % (sorted(ds), names[0] if names else "?"))
+    return total, ("closure via %s" % names[0].rsplit("::", 1)[-1]) if total else None
 
 
 def _touches(F, f, memo, seen=None):
@@ -66,7 +169,7 @@ def _touches(F, f, memo, seen=None):
     r = False
     for bi, t in mu.calls(f):
         names = callee_names(t["func"])
-        if "vm::Vm::_run" in names:
+        if interpreter_loop(F) in names:
             r = True
         if any(n in ("collections::bounded_stack::BoundedStack::push", "collections::bounded_stack::BoundedStack::pop") for n in names) and \
                 t["args"] and _is_call_stack(f, du, t["args"][0]):
@@ -75,7 +178,10 @@ def _touches(F, f, memo, seen=None):
             break
         for n in names:
             g = F.fn(n, required=False)
-            if g is not None and g.mir and not g.is_closure and g is not f and _touches(F, g, memo):
+            if g is not None and g.mir and g is not f and _touches(F, g, memo):
+                r = True
+        for g in _closure_operands(F, f, du, t):
+            if g is not f and _touches(F, g, memo):
                 r = True
     memo[key] = r
     return r
